@@ -57,7 +57,7 @@ def worker(blocks):
     return out
 
 
-LITS = ['2', '3', '0.5', '50%', '5E-1', '2.5E+0', '10', '0', '1', '1.5E+1', '25%']
+LITS = ['2', '3', '0.5', '50%', '5E-1', '2.5E+0', '10', '0', '1', '1.5E+1', '25%', '2.5%', '0.5%', '1E+1%', '12.5%', '300%']
 VALS = [(2, 1), (3, 1), (5, 1), (-2, 1), (1, 2), (0, 1), (7, 1), (-1, 1), (3, 2), (10, 1), (1, 4), (-3, 2)]
 
 
